@@ -672,6 +672,30 @@ example :
 
 /-! ### header -/
 
+/-- Tie to the source (D43): a file without `#TITLE` / `#ARTIST` / `#PLAYLEVEL` reads those three headers as
+empty *bytes* — what the translator observes on the code is what the header model uses. -/
+theorem header_defaults_tie :
+    Generated.BMS.missingHeaderDefault = "" ∧ Generated.BMS.missingHeaderIsBytes = true := by
+  decide +kernel
+
+/-- a missing `#TITLE` / `#ARTIST` / `#PLAYLEVEL` reads as empty bytes, a present one as its value -/
+theorem readHeader_title (data : Dict Bytes) (hdr : Header) (h : readHeader data = .ok hdr) :
+    hdr.title = (dictGet? data "TITLE".toList).getD [] ∧ hdr.artist = (dictGet? data "ARTIST".toList).getD [] ∧
+    hdr.version = (dictGet? data "PLAYLEVEL".toList).getD [] := by
+  have hd : Generated.BMS.missingHeaderDefault.toList = [] := by decide +kernel
+  unfold readHeader at h
+  cases hf : foldlE exbpmStep [] data with
+  | error e => simp [hf, bind, Except.bind] at h
+  | ok ex =>
+    simp only [hf, bind, Except.bind] at h
+    split at h
+    · cases h
+    · split at h
+      · cases h
+      · injection h with h
+        rw [← h, hd]
+        exact ⟨rfl, rfl, rfl⟩
+
 /-- **Header fields are retained**: whatever the reader returns carries the header record computed from the
 header lines (title, artist, level, `#LNOBJ`, `#BPMxx` table, `#WAVxx` table, initial tempo, every other
 key in file order), and that record is the denotation's.  (Both sides use the same lexer: see Spec/BMS.lean.) -/
